@@ -159,7 +159,8 @@ class MessageAny(TlbScheme):
         builder = Builder().store_cell(self.info.serialize())
         if self.init:
             builder.store_bit(1)  # maybe true
-            if len(self.init.serialize().bits) <= (builder.available_bits - 2) and len(self.init.serialize().refs) <= builder.available_refs:
+            # one reference stays free: the body may have to go into a reference of its own
+            if len(self.init.serialize().bits) <= (builder.available_bits - 2) and len(self.init.serialize().refs) < builder.available_refs:
                 builder.store_bit(0)  # Either left
                 builder.store_cell(self.init.serialize())
             else:
